@@ -536,14 +536,61 @@ def r10_6(repo: Repo, rule: str = "R10.6", files: Optional[Set[str]] = None, flo
     return rr
 
 
-RULES = [r10_1, r10_2, r10_3, r10_4, r10_5, r10_6]
+def r10_7(repo: Repo, rule: str = "R10.7") -> RuleResult:
+    """Merge loops walk their inputs with cursors: `while i1 < ind1.shape[0] and i2 < ind2.shape[0]: ... ind1[i1] ...`.
+    Every cursor that indexes a parameter array inside such a loop must be bounded by the loop test, strictly, by the
+    length of an array it indexes (arrays indexed by the same cursor are parallel by the callers' convention)."""
+    rr = RuleResult(rule, "cursors that index parameter arrays inside a while loop are strictly bounded by the loop test", floor=6)
+    for f in njit_functions(repo):
+        params = set(f.params)
+        cursors = set()
+        for n in walk_no_nested(f.node):
+            if isinstance(n, ast.AugAssign) and isinstance(n.target, ast.Name) and isinstance(n.op, ast.Add) and norm(n.value) == "1":
+                cursors.add(n.target.id)
+        if not cursors:
+            continue
+        # arrays indexed by each cursor anywhere in the function (parallel groups)
+        group: Dict[str, Set[str]] = {}
+        for n in walk_no_nested(f.node):
+            if isinstance(n, ast.Subscript) and isinstance(n.value, ast.Name) and n.value.id in params and isinstance(n.slice, ast.Name) \
+                    and n.slice.id in cursors:
+                group.setdefault(n.slice.id, set()).add(n.value.id)
+        for w in [n for n in walk_no_nested(f.node) if isinstance(n, ast.While)]:
+            conj = w.test.values if isinstance(w.test, ast.BoolOp) and isinstance(w.test.op, ast.And) else [w.test]
+            used = {}
+            for st in w.body:
+                for n in ast.walk(st):
+                    if isinstance(n, ast.Subscript) and isinstance(n.ctx, ast.Load) and isinstance(n.value, ast.Name) and n.value.id in params \
+                            and isinstance(n.slice, ast.Name) and n.slice.id in cursors:
+                        used.setdefault(n.slice.id, n)
+            for c, site in sorted(used.items()):
+                lens = set()
+                for a in group.get(c, ()):
+                    lens |= _len_forms(a)
+                bound = None
+                for v in conj:
+                    if isinstance(v, ast.Compare) and len(v.ops) == 1 and norm(v.left) == c and norm(v.comparators[0]) in lens:
+                        bound = v
+                construct = "cursor `%s` in `while %s`" % (c, short(w.test, 50))
+                if bound is None:
+                    rr.bad(f, construct, "`%s[%s]` is read in the loop but the loop test does not bound `%s` by the length of %s: the read runs "
+                           "past the end of the array when the other input is longer" % (site.value.id, c, c, sorted(group.get(c, ()))), w.lineno)
+                elif isinstance(bound.ops[0], ast.Lt):
+                    rr.ok(f, construct, "`%s`" % norm(bound), w.lineno)
+                else:
+                    rr.bad(f, construct, "the bound `%s` is not strict: the last iteration reads `%s[%s]` one past the end" % (norm(bound), site.value.id, c), w.lineno)
+    return rr
+
+
+RULES = [r10_1, r10_2, r10_3, r10_4, r10_5, r10_6, r10_7]
 
 CLAIM = (
     "R10.1 definite assignment (with the for-loop zero-trip edge) in all njit functions; R10.2 every np.searchsorted "
     "result that indexes the searched array is range-guarded or membership-guarded; R10.3 fixed-capacity accumulators "
     "are re-bound after append (=R4.1); R10.4 affine index bounds for the recognised `for v in range(lo, len(A)-d)` "
     "shapes; R10.5 prange stores are indexed by the induction variable; R10.6 slots of np.empty buffers and placeholder "
-    "lists are stored on every iteration of their filling loop (no one-armed conditional around the store)."
+    "lists are stored on every iteration of their filling loop (no one-armed conditional around the store); R10.7 cursors that "
+    "index parameter arrays inside a while (merge) loop are strictly bounded by the loop test against the length of an array they index."
 )
 NOT_DECIDED = (
     "indices that are data (window_size_array[i, target_word], baseline_probabilities[idx], token ids beyond a "
